@@ -211,6 +211,10 @@ def m_clone(ex, c, args):
             raise Unmodelled("to_string of %r" % (v,))
         return v
     # reference-to-reference conversions keep pointing at the same location
+    v = rda(args[0])
+    if type(v) is Adt and v.ty == "Cow" and c.method in ("deref", "as_ref", "borrow"):
+        inner = v.fields[0]
+        return inner if type(inner) in (Ref, str) else sub(args[0], 0)
     return args[0]
 
 
@@ -355,7 +359,7 @@ def m_default(ex, c, args):
     raise Unmodelled("Default::default for " + c.selfty)
 
 
-@model("mem::drop", "mem::forget")
+@model("mem::drop", "mem::forget", "Drop::drop", "ptr::drop_in_place")
 def m_drop(ex, c, args):
     return UNIT
 
